@@ -108,6 +108,15 @@ def _gen_expr(rng, world, depth):
     op = rng.choice(["+", "+", "+", "*", "*", "-", "^"])
     if op == "^":
         return {"op": "^", "n": rng.choice([2, 2, 3]), "a": _gen_expr(rng, world, min(depth - 1, 1))}
+    if op == "-" and rng.random() < 0.45:
+        # a term carried twice (shared by two summands), then subtracted
+        x = _gen_atom(rng, world)
+        other = _gen_expr(rng, world, max(depth - 2, 0))
+        third = x if rng.random() < 0.6 else {"op": "*", "a": x, "b": _gen_atom(rng, world)}
+        a = {"op": "+", "a": {"op": "+", "a": x, "b": other}, "b": {"op": "+", "a": third, "b": x}}
+        if rng.random() < 0.3:
+            a = {"op": "+", "a": a, "b": x}
+        return {"op": "-", "a": a, "b": x}
     a = _gen_expr(rng, world, depth - 1)
     if op in "+*" and rng.random() < 0.2:
         b = a                                     # f + f, f * f on purpose
@@ -175,6 +184,7 @@ class _World:
         self.F = F
         self.sympy = sympy
         self.w = world
+        self.alg_fail = None      # first violated clause of the +, -, * arithmetic on the real objects
         self.terms = [F.Term(n) for n in world["names"]]
         self.factors = []
         for fc in world["facs"]:
@@ -217,9 +227,47 @@ class _World:
                 return self.terms[e["v"]].formula
             return F.Formula([self.mono(c, vs) for c, vs in e["monos"]])
         if e["op"] == "^":
-            return functools.reduce(operator.mul, [self.build(e["a"])] * e["n"])
+            base = self.build(e["a"])
+            r = base
+            for _ in range(e["n"] - 1):
+                r = self._mul(r, base)
+            return r
         a, b = self.build(e["a"]), self.build(e["b"])
-        return a + b if e["op"] == "+" else (a - b if e["op"] == "-" else a * b)
+        if e["op"] == "*":
+            return self._mul(a, b)
+        at, bt = list(a.terms), list(b.terms)
+        if e["op"] == "+":
+            r = a + b
+            if self.alg_fail is None and list(r.terms) != at + bt:
+                self.alg_fail = (f"Formula {at} + Formula {bt} has terms {list(r.terms)}: not the terms of the "
+                                 f"first followed by the terms of the second")
+            return r
+        r = a - b
+        if self.alg_fail is None:
+            rt = list(r.terms)
+            left = [t for t in rt if any(t == u for u in bt)]
+            want = [t for t in at if not any(t == u for u in bt)]
+            if left:
+                self.alg_fail = (f"Formula {at} - Formula {bt} has terms {rt}: the subtracted term(s) {left} "
+                                 f"remain, so the design keeps a column for a subtracted term")
+            elif rt != want:
+                self.alg_fail = (f"Formula {at} - Formula {bt} has terms {rt}, expected the other terms {want} "
+                                 f"in order with their multiplicity")
+        return r
+
+    def _mul(self, a, b):
+        sp = self.sympy
+        r = a * b
+        if self.alg_fail is None:
+            at, bt, rt = list(a.terms), list(b.terms), list(r.terms)
+            if self.F.is_factor(a) and len(at) == len(bt) and all(x == y for x, y in zip(at, bt)):
+                want = set(at)         # a Factor times itself is itself
+            else:
+                want = {sp.Mul(x, y) for x in at for y in bt}
+            if set(rt) != want or len(set(rt)) != len(rt):
+                self.alg_fail = (f"Formula {at} * Formula {bt} has terms {rt}: not each distinct pairwise "
+                                 f"product once ({sorted(want, key=str)})")
+        return r
 
     def to_mono(self, term):
         """canonical (coeff, sorted var indices) of a sympy monomial; None if not a monomial"""
@@ -298,6 +346,70 @@ def _bc(vals, n):
     return a.tolist()
 
 
+def _grid_variants(fn, q, base, what, scalar_refusal_ok=False, lists=True, scale=1.0, unsigned=True):
+    """Evaluate the lambdified time course `fn` on other presentations of the same instants `q`
+    (float32 / integer dtypes, python and numpy scalars, 0-d, 2-d, non-contiguous, empty, list) and
+    compare with `base`, its values on the float64 grid (which the caller has checked against the
+    defining formula).  Returns (failure or None, tags)."""
+    q = [float(v) for v in q]
+    base = [float(v) for v in base]
+    val = dict(zip(q, base))
+    ints = [v for v in q if v.is_integer() and abs(v) < 2 ** 31]
+    f32 = [v for v in q if float(np.float32(v)) == v]
+    tags = []
+    variants = []
+    if f32:
+        variants.append(("float32 array", np.array(f32, dtype=np.float32), f32, 1e-5))
+        variants.append(("float32 2-d column", np.array(f32, dtype=np.float32).reshape(-1, 1), f32, 1e-5))
+    if ints:
+        variants.append(("int64 array", np.array(ints, dtype=np.int64), ints, 1e-9))
+        variants.append(("int32 array", np.array(ints, dtype=np.int32), ints, 1e-9))
+        variants.append(("2-d int row", np.array(ints, dtype=int).reshape(1, -1), ints, 1e-9))
+        small = [v for v in ints if 0 <= v <= 255]
+        if small and unsigned:   # lambdify-generated code negates t: numpy wraps unsigned integers (not nipy's)
+            variants.append(("uint8 array", np.array(small, dtype=np.uint8), small, 1e-9))
+        variants.append(("python int", int(ints[0]), [ints[0]], 1e-9))
+        variants.append(("numpy int64 scalar", np.int64(ints[-1]), [ints[-1]], 1e-9))
+        variants.append(("0-d int array", np.array(int(ints[0])), [ints[0]], 1e-9))
+    variants.append(("2-d float column", np.array(q, dtype=float).reshape(-1, 1), q, 1e-9))
+    variants.append(("non-contiguous float array", np.array([x for v in q for x in (v, 0.0)], dtype=float)[::2], q, 1e-9))
+    variants.append(("python float", float(q[-1]), [q[-1]], 1e-9))
+    variants.append(("numpy float32 scalar", np.float32(f32[0]) if f32 else np.float64(q[0]), [f32[0] if f32 else q[0]], 1e-5))
+    variants.append(("0-d float array", np.array(q[0]), [q[0]], 1e-9))
+    variants.append(("empty array", np.array([], dtype=float), [], 1e-9))
+    if lists:
+        variants.append(("list", list(q), q, 1e-9))
+    for label, arg, pts, tol in variants:
+        is_scalar = np.ndim(arg) == 0
+        try:
+            r = fn(arg)
+        except TypeError as e:
+            if is_scalar and scalar_refusal_ok:
+                tags.append("scalar-time-refused")
+                continue
+            return f"{what} evaluated on a {label} raised TypeError: {str(e)[:120]}", tags
+        except Exception as e:
+            return f"{what} evaluated on a {label} ({arg!r}) raised {type(e).__name__}: {str(e)[:120]}", tags
+        try:
+            got = np.asarray(r, dtype=float)
+        except Exception as e:
+            return f"{what} on a {label} returned a non-numeric result {r!r}", tags
+        if got.ndim == 0:
+            got = np.full(len(pts), float(got))       # constants lambdify to scalars
+        elif not is_scalar and got.size == len(pts) and got.shape != np.shape(arg) and len(pts) > 0:
+            return f"{what} on a {label} of shape {np.shape(arg)} returned shape {got.shape}", tags
+        got = got.reshape(-1).tolist()
+        want = [val[v] for v in pts]
+        if len(got) != len(want):
+            return f"{what} on a {label} returned {len(got)} values for {len(want)} times", tags
+        for v, g, w in zip(pts, got, want):
+            if not (abs(g - w) <= tol * (1.0 + abs(w)) * (scale if tol > 1e-8 else 1.0)):
+                return (f"{what} evaluated on a {label} gives {g} at t={v}, but {w} on the float64 grid "
+                        f"(the value the defining formula gives)"), tags
+    tags.append("grid-variants")
+    return None, tags
+
+
 class C10(PropertyCheck):
     id = "C10"
     title = "Model formulae and symbolic time courses evaluate to what they denote"
@@ -319,6 +431,11 @@ class C10(PropertyCheck):
         "discrete convolution (both checked to 1e-9 per case)",
         "kernels are polynomials (optionally causal) in the correspondence; the theorems hold for every kernel",
         "non-linear kinds of `interp` (cubic, ...) and symbolic DiracDelta events are not evaluated",
+        "every time course is also evaluated on float32 / int64 / int32 / uint8 arrays, python and numpy scalars, "
+        "0-d, 2-d, non-contiguous, empty and list presentations of the same instants and must give the float64 "
+        "values; a scalar time refused with TypeError by step_function/blocks is out of domain (a sampling grid "
+        "is an array), a wrong value never is; unsigned grids are not fed to lambdify-generated code (numpy "
+        "wraps -t)",
     ]
     level_note = ("contrast selection is proved under a full-column-rank hypothesis replaced by the "
                   "selector identity; pinv/rank numerics and lambdify are oracle-only")
@@ -342,6 +459,13 @@ class C10(PropertyCheck):
             for a in atoms0:
                 for b in atoms0:
                     cases.append({"kind": "design", "world": world0, "expr": {"op": op, "a": a, "b": b}, "rec": True})
+        for a in atoms0:                       # (a + b) - c and (a + b + a) - c: repeated terms, then subtraction
+            for b in atoms0:
+                for c in atoms0:
+                    e = {"op": "+", "a": a, "b": b}
+                    if (atoms0.index(a) + atoms0.index(b) + atoms0.index(c)) % 3 == 0:
+                        e = {"op": "+", "a": e, "b": a}
+                    cases.append({"kind": "design", "world": world0, "expr": {"op": "-", "a": e, "b": c}, "rec": False})
         for a in atoms0:
             for n in (2, 3):
                 cases.append({"kind": "design", "world": world0, "expr": {"op": "^", "n": n, "a": a}, "rec": False})
@@ -361,7 +485,7 @@ class C10(PropertyCheck):
         for _ in range(n_ev):
             k = rng.choice([0, 1, 2, 3, 3, 4, 6])
             times = [rng.choice([0.0, 0.5, 1.0, 2.5, 3.0, 4.25, 7.0, -1.0, 10.0]) for _ in range(k)]
-            amps = None if rng.random() < 0.15 else [rng.choice([1.0, 2.0, -1.0, 0.5, 0.0, 3.0, -0.25]) for _ in range(k)]
+            amps = None if rng.random() < 0.15 else [rng.choice([1.0, 2.0, -1.0, 0.5, 0.0, 3.0, -0.25, 2.75, -1.25]) for _ in range(k)]
             cases.append({"kind": "events", "times": times, "amps": amps,
                           "kernel": [rng.choice(["1", "0", "2", "-1", "1/2", "1/4"]) for _ in range(rng.choice([1, 2, 3, 4]))],
                           "causal": rng.random() < 0.5, "implfn": rng.random() < 0.5,
@@ -374,20 +498,20 @@ class C10(PropertyCheck):
                 ts = sorted(rng.sample([-3.0, -1.0, 0.0, 0.5, 1.0, 2.0, 4.0, 4.5, 5.0, 9.0], k))
             else:
                 ts = [rng.choice([-1.0, 0.0, 1.0, 2.0, 4.0, 5.0]) for _ in range(k)]   # unsorted / ties
-            vs = [rng.choice([0.0, 1.0, 2.0, -1.0, 4.0, 6.0, 0.5, 7.0]) for _ in range(k)]
-            cases.append({"kind": "step", "times": ts, "values": vs, "fill": rng.choice([0.0, 0.0, -1.0, 3.5]),
+            vs = [rng.choice([0.0, 1.0, 2.0, -1.0, 4.25, 6.0, 0.5, 7.0, 2.5, -1.25, 0.75]) for _ in range(k)]
+            cases.append({"kind": "step", "times": ts, "values": vs, "fill": rng.choice([0.0, 0.0, -1.0, 3.5, 0.75, -0.25]),
                           "q": sorted(set(ts + [rng.choice([-5.0, -0.5, 0.25, 1.5, 3.9, 4.1, 4.75, 10.0]) for _ in range(4)]))})
         for _ in range(n_blk):
             cases.append(self._gen_blocks(rng))
         for _ in range(n_int):
             k = rng.choice([2, 2, 3, 4, 6])
             ts = sorted(rng.sample([-3.0, -1.0, 0.0, 0.5, 1.0, 2.0, 4.0, 4.5, 5.0, 9.0, 9.25], k))
-            vs = [rng.choice([0.0, 1.0, 2.0, -1.0, 4.0, 6.0, 0.5, 7.0, -2.5]) for _ in range(k)]
+            vs = [rng.choice([0.0, 1.0, 2.0, -1.0, 4.25, 6.0, 0.5, 7.0, -2.5, 0.75]) for _ in range(k)]
             mids = [(a + b) / 2 for a, b in zip(ts, ts[1:])] + [ts[0] + (ts[1] - ts[0]) / 4]
             outside = [] if rng.random() < 0.3 else [ts[0] - 0.5, ts[-1] + 0.25]
             cases.append({"kind": "interp", "times": ts, "values": vs,
-                          "fill": rng.choice([0.0, 0.0, 9.0, -1.5, None]), "linear": rng.random() < 0.5,
-                          "q": sorted(ts + mids + outside)})
+                          "fill": rng.choice([0.0, 0.0, 9.0, -1.5, 0.75, None]), "linear": rng.random() < 0.5,
+                          "q": sorted(set(ts + mids + outside + [float(round(m)) for m in mids]))})
         for _ in range(n_conv):
             cases.append(self._gen_conv(rng))
         for _ in range(n_des):
@@ -474,9 +598,10 @@ class C10(PropertyCheck):
         if mode == "overlap":
             ivs = [[rng.choice(cuts[:k]), rng.choice(cuts[k:])] for _ in range(k)]
             rng.shuffle(ivs)
-        amps = None if rng.random() < 0.15 else [rng.choice([1.0, 2.0, -1.0, 0.5, 3.0, 0.0]) for _ in range(k)]
+        amps = None if rng.random() < 0.15 else [rng.choice([1.0, 2.0, -1.0, 0.5, 3.0, 0.0, 2.75, -1.25, 0.25]) for _ in range(k)]
         qs = sorted({t for iv in ivs for t in iv} | {(iv[0] + iv[1]) / 2 for iv in ivs}
-                    | {rng.choice([-5.0, 0.25, 3.75, 7.25, 11.0, 25.0]) for _ in range(3)})
+                    | {rng.choice([-5.0, 0.25, 3.75, 7.25, 11.0, 25.0]) for _ in range(3)}
+                    | {float(int(iv[0]) + 1) for iv in ivs})
         return {"kind": "blocks", "ivs": ivs, "amps": amps, "mode": mode, "q": qs}
 
     def _gen_fn(self, rng):
@@ -485,7 +610,7 @@ class C10(PropertyCheck):
             k = rng.choice([1, 2, 3])
             cuts = sorted(rng.sample([x * 0.5 for x in range(0, 16)], 2 * k))
             return {"type": "blocks", "ivs": [[cuts[2 * i], cuts[2 * i + 1]] for i in range(k)],
-                    "amps": [rng.choice([1.0, 2.0, -1.0, 0.5]) for _ in range(k)]}
+                    "amps": [rng.choice([1.0, 2.0, -1.0, 0.5, 2.75, -1.25]) for _ in range(k)]}
         return {"type": "poly", "cs": [rng.choice(["1", "0", "2", "-1", "1/2"]) for _ in range(rng.choice([1, 2, 3]))],
                 "causal": rng.random() < 0.5}
 
@@ -501,7 +626,8 @@ class C10(PropertyCheck):
         qs = sorted({lo - dt, lo, lo + dt / 2, lo + dt, (lo + hi) / 2, hi - dt, hi, hi + 1.0,
                      lo + 3 * dt, lo + 2.5 * dt})
         return {"kind": "conv", "f": self._gen_fn(rng), "g": self._gen_fn(rng), "fi": fi, "gi": gi, "dt": dt,
-                "fill": rng.choice([0.0, 0.0, 7.0]), "tc": rng.random() < 0.4, "q": qs}
+                "fill": rng.choice([0.0, 0.0, 7.0, 0.75]), "tc": rng.random() < 0.4,
+                "q": sorted(set(qs) | {float(int(lo)), float(int(lo) + 1), float(int(hi))})}
 
     def _gen_fmri_design(self, rng):
         btype = rng.choice(["event", "block"])
@@ -554,7 +680,7 @@ class C10(PropertyCheck):
                 impl_obs = ("err", errname(e))
             lines.append(f"design {etoks} {_specs_tokens(world)} {_rows_tokens(world)}")
             impl.append(impl_obs)
-            return {"lines": lines, "impl": impl, "oracle": None, "nontrivial": False, "tags": tags,
+            return {"lines": lines, "impl": impl, "oracle": W.alg_fail, "nontrivial": False, "tags": tags,
                     "mutated": snap.changed()}
         try:
             D = f.design(W.data, return_float=True)
@@ -566,7 +692,10 @@ class C10(PropertyCheck):
         impl.append(("cols", cols))
         want = [W.exact_column(t) for t in terms]
         d = _match_cols(cols, want)
-        if d is not None:
+        if W.alg_fail is not None:
+            fail = W.alg_fail
+            tags.append("algebra-clause-failed")
+        elif d is not None:
             fail = (f"Formula.design(return_float=True) of terms {terms}: {d}; columns are "
                     f"{np.asarray(cols).T.tolist() if cols else []}")
         names = [str(t) for t in terms]
@@ -760,7 +889,8 @@ class C10(PropertyCheck):
         kw = {} if c["g"] == ["0", "1"] else {"g": g}
         try:
             ex = U.events(times, amps, f=ker, **kw)
-            vals = _bc(U.lambdify_t(ex)(q), len(q))
+            lam = U.lambdify_t(ex)
+            vals = _bc(lam(q), len(q))
         except Exception as e:
             return {"lines": [], "impl": [], "nontrivial": True, "tags": ["events", "raised"],
                     "oracle": f"events/lambdify_t raised {type(e).__name__}: {str(e)[:200]}"}
@@ -787,9 +917,17 @@ class C10(PropertyCheck):
                     fail = "events is not additive over a split of the event list"
             except Exception as e:
                 fail = f"events on a sub-list raised {type(e).__name__}: {e}"
+        gtags = []
+        if fail is None:
+            tmax = max([abs(t) for t in c["q"]] + [0.0]) + max([abs(t) for t in c["times"]] + [0.0])
+            scale = 1.0 + sum(abs(float(_poly(gcs, Fraction(a_)))) for a_ in am) * \
+                sum(abs(float(cf)) * tmax ** j for j, cf in enumerate(kcs))
+            fail, gtags = _grid_variants(lam, c["q"], vals, f"events(times={c['times']}, amplitudes={c['amps']})",
+                                         lists=False, scale=scale, unsigned=False)
         ev = " ".join(f"{fr(t)} {fr(a_)}" for t, a_ in zip(c["times"], am))
         line = (f"events {len(c['times'])} {ev} {1 if c['causal'] else 0} {plist(kcs)} {plist(gcs)} {plist(c['q'])}")
         tags = ["events", "causal" if c["causal"] else "polynomial", "implemented-fn" if c["implfn"] else "symbolic"]
+        tags += gtags
         if len(set(c["times"])) < len(c["times"]):
             tags.append("coincident")
         return {"lines": [" ".join(line.split())], "impl": [("vals", vals)], "oracle": fail,
@@ -801,7 +939,8 @@ class C10(PropertyCheck):
         ts, vs = list(c["times"]), list(c["values"])
         snap = Snapshot(ts=ts, vs=vs)
         try:
-            vals = _bc(U.lambdify_t(U.step_function(ts, vs, fill=c["fill"]))(q), len(q))
+            lam = U.lambdify_t(U.step_function(ts, vs, fill=c["fill"]))
+            vals = _bc(lam(q), len(q))
         except Exception as e:
             return {"lines": [], "impl": [], "nontrivial": True, "tags": ["step", "raised"],
                     "oracle": f"step_function raised {type(e).__name__}: {e}"}
@@ -814,10 +953,16 @@ class C10(PropertyCheck):
                 if v != want:
                     fail = f"step_function(times={ts}, values={vs}, fill={c['fill']}) at t={t} is {v}, expected {want}"
                     break
+        gtags = []
+        if fail is None:
+            # a scalar time is refused (TypeError) by the implementation's boolean-mask assignment; a wrong
+            # value is never accepted
+            fail, gtags = _grid_variants(lam, c["q"], vals, f"step_function(times={ts}, values={vs}, fill={c['fill']})",
+                                         scalar_refusal_ok=True)
         tv = " ".join(f"{fr(t)} {fr(v)}" for t, v in zip(ts, vs))
         line = f"step {fr(c['fill'])} {len(ts)} {tv} {plist(c['q'])}"
         return {"lines": [line], "impl": [("vals", vals)], "oracle": fail, "nontrivial": len(ts) >= 2,
-                "tags": ["step", "increasing" if inc else "unsorted-or-tied"], "mutated": snap.changed()}
+                "tags": ["step", "increasing" if inc else "unsorted-or-tied"] + gtags, "mutated": snap.changed()}
 
     def _blocks(self, c):
         from nipy.modalities.fmri import utils as U
@@ -826,7 +971,8 @@ class C10(PropertyCheck):
         amps = None if c["amps"] is None else list(c["amps"])
         snap = Snapshot(ivs=ivs, amps=amps if amps is not None else 0)
         try:
-            vals = _bc(U.lambdify_t(U.blocks(ivs, amps))(q), len(q))
+            lam = U.lambdify_t(U.blocks(ivs, amps))
+            vals = _bc(lam(q), len(q))
         except Exception as e:
             return {"lines": [], "impl": [], "nontrivial": True, "tags": ["blocks", "raised"],
                     "oracle": f"blocks raised {type(e).__name__}: {e}"}
@@ -840,10 +986,14 @@ class C10(PropertyCheck):
                     fail = (f"blocks(intervals={ivs}, amplitudes={amps}) at t={t} is {v}; the amplitude of the "
                             f"block containing t is {want}")
                     break
+        gtags = []
+        if fail is None:
+            fail, gtags = _grid_variants(lam, c["q"], vals, f"blocks(intervals={ivs}, amplitudes={amps})",
+                                         scalar_refusal_ok=True)
         bl = " ".join(f"{fr(s)} {fr(e)} {fr(a)}" for (s, e), a in zip(ivs, am))
         line = f"blocks {len(ivs)} {bl} {plist(c['q'])}"
         return {"lines": [" ".join(line.split())], "impl": [("vals", vals)], "oracle": fail,
-                "nontrivial": len(ivs) >= 2, "tags": ["blocks", "blocks-" + c["mode"]], "mutated": snap.changed()}
+                "nontrivial": len(ivs) >= 2, "tags": ["blocks", "blocks-" + c["mode"]] + gtags, "mutated": snap.changed()}
 
     def _interp(self, c):
         from nipy.modalities.fmri import utils as U
@@ -855,7 +1005,8 @@ class C10(PropertyCheck):
         line = f"interp {fillt} {plist(ts)} {plist(vs)} {plist(c['q'])}"
         tags = ["interp", "linear_interp" if c["linear"] else "interp"]
         try:
-            vals = _bc(U.lambdify_t(fn(ts, vs, fill=c["fill"]))(q), len(q))
+            lam = U.lambdify_t(fn(ts, vs, fill=c["fill"]))
+            vals = _bc(lam(q), len(q))
         except ValueError as e:
             outside = any(t < ts[0] or t > ts[-1] for t in c["q"])
             fail = None if (c["fill"] is None and outside) else f"interp raised ValueError: {e}"
@@ -880,6 +1031,9 @@ class C10(PropertyCheck):
                     fail = f"interp at t={t} is {v}, outside the neighbouring samples [{lo}, {hi}]"
             if fail:
                 break
+        if fail is None:
+            fail, gtags = _grid_variants(lam, c["q"], vals, f"interp(times={ts}, values={vs}, fill={c['fill']})")
+            tags += gtags
         return {"lines": [line], "impl": [("vals", vals)], "oracle": fail, "nontrivial": True, "tags": tags,
                 "mutated": snap.changed()}
 
@@ -924,7 +1078,8 @@ class C10(PropertyCheck):
                 ex = U.TimeConvolver(gex, c["gi"], c["dt"], fill=c["fill"]).convolve(fex, c["fi"])
             else:
                 ex = U.convolve_functions(fex, gex, c["fi"], c["gi"], c["dt"], fill=c["fill"])
-            vals = _bc(U.lambdify_t(ex)(q), len(q))
+            lam = U.lambdify_t(ex)
+            vals = _bc(lam(q), len(q))
         except Exception as e:
             if const:
                 return {"lines": [], "impl": [], "oracle": None, "nontrivial": False,
@@ -946,6 +1101,9 @@ class C10(PropertyCheck):
             v2 = _bc(U.lambdify_t(ex2)(q), len(q))
             if not np.allclose(v2, vals, rtol=1e-9, atol=1e-9):
                 fail = "convolve_functions(f, g) and convolve_functions(g, f) differ"
+        if fail is None:
+            fail, gtags = _grid_variants(lam, c["q"], vals, "the numerically convolved function")
+            tags += gtags
         return {"lines": [line], "impl": [("vals", vals)], "oracle": fail, "nontrivial": True, "tags": tags,
                 "mutated": None}
 
